@@ -42,6 +42,9 @@ def corpus():
 
 def monitor(case, obs):
     x = X(case, obs)
+    # C05 quantifies over modal pushes and user actions; an application that calls the raw loop API (execute_new_loop / close_loop) itself is outside it
+    # (hypothesis ScreenOnly of the theorems)
+    if any(ev[0] == "api" and ev[1] in ("close_loop", "new_loop") for i, ev, ctx in x.events()): return None
     calls = []      # open push_screen_modal calls: [stack at the call]
     for i, ev, ctx in x.events():
         if ctx.get("reader") or "stack" not in ctx: continue
@@ -57,7 +60,8 @@ def monitor(case, obs):
             if any(e[0] == name for e in c_["st"]) and not any(e[0] == name for e in st[len(c_["st"]):]): c_["redraw_for"].add(ev[2])
         if ev[0] == "api<" and ev[1] == "push_modal" and calls:
             rec = calls.pop(); at = rec["st"]
-            if len(st) > len(at) + rec["sched"]:
+            pos = len(at) + rec["sched"]       # where the modal entry (or what replaced it: the flag is inherited) sits; later non-modal pushes may follow its close
+            if len(st) > pos and st[pos][2] == "True":
                 return "push_screen_modal returned although the modal screen (or what replaced it) is still on the stack: %r (at the call: %r)" % (st, at)
             for scr in rec["redraw_for"]:
                 # nothing that was queued for the caller's side has been lost: once the run is quiescent the screen was refreshed after the return
@@ -79,7 +83,12 @@ def monitor(case, obs):
             # entries scheduled (inserted at the bottom) during the modal session shift positions: count them
             name = x.specs[ev[1]]["name"]
             if ev[2] == "closed":
-                if len(st) < n: return "closed() of %s popped an entry beneath the modal screen (stack %r, %d entries at the call)" % (name, st, n)
+                # an application that itself closes the screen beneath (close_screen() called again after the modal one is gone) is its own doing
+                open_close = 0
+                for e2, c2 in x.x[:i]:
+                    if e2[0] == "api" and e2[1] == "close_direct": open_close += 1
+                    if e2[0] == "api<" and e2[1] == "close_direct": open_close -= 1
+                if len(st) < n and open_close <= 0: return "closed() of %s popped an entry beneath the modal screen (stack %r, %d entries at the call)" % (name, st, n)
             else:
                 if len(st) <= n: return "%s() of %s ran inside push_screen_modal while the stack was %r (%d entries at the call): a screen beneath the modal one" % (ev[2], name, st, n)
     return None
